@@ -362,3 +362,150 @@ func (c *Ctx) SameValueArgs(fn *ssa.Function, specs map[string]int, what, why st
 	}
 	return ref
 }
+
+// FieldStore (K11): a store to field "Type.Field" of an object whose canonical
+// form matches baseGlob exists, and every such store writes a value matching
+// valGlob.
+func (c *Ctx) FieldStore(fn *ssa.Function, tf, baseGlob, valGlob string, why string) {
+	if fn == nil {
+		return
+	}
+	fnName := load.QualName(fn)
+	what := "store " + tf + " of `" + baseGlob + "` := `" + valGlob + "`"
+	n := 0
+	for _, b := range fn.Blocks {
+		for _, ins := range b.Instrs {
+			s, ok := ins.(*ssa.Store)
+			if !ok {
+				continue
+			}
+			fa, ok := s.Addr.(*ssa.FieldAddr)
+			if !ok || typeField(fa) != tf {
+				continue
+			}
+			base := CanonD(fa.X, 9)
+			if !Glob(baseGlob, base) {
+				continue
+			}
+			n++
+			c.Sites++
+			v := CanonD(s.Val, 9)
+			if Glob(valGlob, v) {
+				c.OK("K11", fnName, what, c.At(s), why)
+			} else {
+				c.Fail("K11", fnName, what, c.At(s), "stored value is `"+short(v, 200)+"` ("+why+")")
+			}
+		}
+	}
+	if n == 0 {
+		c.Fail("K11", fnName, what, "-", "no store to this field of this object ("+why+")")
+	}
+}
+
+// ToFieldStoreVal: a store of a value with the given canonical form to field tf.
+func ToFieldStoreVal(tf, val string) Target {
+	return Target{Name: "store " + tf + "=" + val, Instr: func(i ssa.Instruction) bool {
+		s, ok := i.(*ssa.Store)
+		if !ok {
+			return false
+		}
+		fa, ok := s.Addr.(*ssa.FieldAddr)
+		return ok && typeField(fa) == tf && Canon(s.Val) == val
+	}}
+}
+
+// FieldStoreUnder (K5): a store of value val to field tf exists, and its guard
+// set contains every required decision.
+func (c *Ctx) FieldStoreUnder(fn *ssa.Function, tf, val string, req []Cond, why string) {
+	if fn == nil {
+		return
+	}
+	fnName := load.QualName(fn)
+	what := "store " + tf + "=" + val + " under " + condsAnd(req)
+	n := 0
+	near := ""
+	for _, b := range fn.Blocks {
+		for _, ins := range b.Instrs {
+			s, ok := ins.(*ssa.Store)
+			if !ok {
+				continue
+			}
+			fa, ok := s.Addr.(*ssa.FieldAddr)
+			if !ok || typeField(fa) != tf || !Glob(val, Canon(s.Val)) {
+				continue
+			}
+			okAll := true
+			for _, r := range req {
+				if !HasGuard(b, r) {
+					okAll = false
+				}
+			}
+			if okAll {
+				n++
+				c.Sites++
+				c.OK("K5", fnName, what, c.At(s), why)
+			} else {
+				var gs []string
+				for _, g := range GuardsOf(b) {
+					gs = append(gs, condStr(g))
+				}
+				near = strings.Join(gs, " & ")
+			}
+		}
+	}
+	if n == 0 {
+		c.Fail("K5", fnName, what, "-", "no such store under these decisions ("+why+"); guards found: "+short(near, 500))
+	}
+}
+
+// NoUseAfter (K10): once the call matching writeSpec has been issued, no later
+// instruction of the same iteration hands the value v (the batch) to another
+// call: whatever is staged after the write is silently lost.
+func (c *Ctx) NoUseAfter(fn *ssa.Function, v ssa.Value, writeSpec, why string) {
+	if fn == nil || v == nil {
+		return
+	}
+	fnName := load.QualName(fn)
+	what := "nothing is staged into the batch after " + writeSpec
+	back := BackEdges(fn)
+	sites := CallsIn(fn, writeSpec)
+	if len(sites) == 0 {
+		c.Fail("floor", fnName, "K10: call of "+writeSpec+" present", "-", "not found")
+		return
+	}
+	for _, w := range sites {
+		c.Sites++
+		wi := instrIndex(w)
+		var bad []string
+		check := func(b *ssa.BasicBlock, from int) {
+			for i := from; i < len(b.Instrs); i++ {
+				ci, ok := b.Instrs[i].(ssa.CallInstruction)
+				if !ok {
+					continue
+				}
+				cc := ci.Common()
+				uses := cc.IsInvoke() && Resolve(cc.Value) == v
+				for _, a := range cc.Args {
+					if Resolve(a) == v {
+						uses = true
+					}
+				}
+				if uses {
+					bad = append(bad, c.At(ci)+" "+Callee(cc).Name)
+				}
+			}
+		}
+		check(w.Block(), wi+1)
+		for b := range ReachFrom(w.Block().Succs, back) {
+			if b == w.Block() {
+				continue
+			}
+			check(b, 0)
+		}
+		if len(bad) > 0 {
+			c.Fail("K10", fnName, what, c.At(w), "used after the write: "+strings.Join(uniq(bad), ", ")+" ("+why+")")
+		} else {
+			c.OK("K10", fnName, what, c.At(w), why)
+		}
+	}
+}
